@@ -46,11 +46,6 @@ def encodeIndex (r : List (Nat × Nat × Nat)) : Bytes :=
 /-- the encoded index of one minishard placed at data offset `off` -/
 def indexBytes (off : Nat) (rows : List (Nat × Nat)) : Bytes := encodeIndex (rows3 off rows)
 
-/-- start positions of consecutive regions of the given lengths, from `acc` -/
-def starts : Nat → List Nat → List Nat
-  | _, [] => []
-  | acc, l :: t => acc :: starts (acc + l) t
-
 def pairs (l : List (Nat × Nat)) : List Nat := l.flatMap fun (a, b) => [a, b]
 
 /-- the encoded minishard indices, each with the data offset of its minishard
